@@ -1,5 +1,7 @@
 /// Recursive descent expression parser
+use std::cell::Cell;
 use std::fmt::{self, Display, Formatter};
+use std::rc::Rc;
 use std::str::FromStr;
 
 use itertools::Itertools;
@@ -472,6 +474,9 @@ fn tokenize(input: &str) -> Result<Vec<Token>> {
 /// function calls and chained variable lookups all count).
 /// The parser is recursive, so unbounded nesting would exhaust the stack.
 const MAX_EXPR_DEPTH: usize = 64;
+/// Upper bound on variable expansions while evaluating a single expression; nesting
+/// depth alone does not bound them (`a2="$a1 + $a1"`, `a1="$a0 + $a0"`... doubles per level).
+const MAX_EXPR_LOOKUPS: usize = 10_000;
 
 pub struct EvalState<'a> {
     tokens: Vec<Token>,
@@ -482,6 +487,8 @@ pub struct EvalState<'a> {
     checked_vars: Vec<String>,
     // Current nesting depth, including that of any enclosing variable lookups
     depth: usize,
+    // Number of variable lookups so far, shared with enclosing variable lookups
+    lookups: Rc<Cell<usize>>,
 }
 
 impl<'a> EvalState<'a> {
@@ -496,6 +503,7 @@ impl<'a> EvalState<'a> {
             context,
             checked_vars: Vec::from(checked_vars),
             depth: 0,
+            lookups: Rc::new(Cell::new(0)),
         }
     }
 
@@ -539,6 +547,12 @@ impl<'a> EvalState<'a> {
         if self.checked_vars.iter().contains(&String::from(v)) {
             return Err(SvgdxError::CircularRefError(v.to_owned()));
         }
+        self.lookups.set(self.lookups.get() + 1);
+        if self.lookups.get() > MAX_EXPR_LOOKUPS {
+            return Err(SvgdxError::ParseError(format!(
+                "Expression expands more than {MAX_EXPR_LOOKUPS} variables"
+            )));
+        }
         self.checked_vars.push(v.to_string());
         let result = if let Some(inner) = self.context.get_var(v) {
             let tokens = tokenize(&inner)?;
@@ -547,6 +561,7 @@ impl<'a> EvalState<'a> {
             } else {
                 let mut es = EvalState::new(tokens, self.context, &self.checked_vars);
                 es.depth = self.depth;
+                es.lookups = Rc::clone(&self.lookups);
                 let e = expr_list(&mut es)?;
                 if es.peek().is_none() {
                     Ok(e)
